@@ -68,12 +68,9 @@ def SRC_PREFIX() -> str:
 
 
 def data_bytes(n: int, salt: int = 0) -> bytes:
-    out = b""
-    i = 0
-    while len(out) < n:
-        out += hashlib.sha256(b"%d/%d" % (salt, i)).digest()
-        i += 1
-    return out[:n]
+    # (same bytes as the original block-by-block concatenation, built in linear time)
+    parts = [hashlib.sha256(b"%d/%d" % (salt, i)).digest() for i in range((n + 31) // 32)]
+    return b"".join(parts)[:n]
 
 
 class OpTrace:
